@@ -121,7 +121,10 @@ def hypothesis_run(ctx):
     runs = 25000
     env = dict(os.environ, PYTHONPATH=os.path.join(harness, "shims") + os.pathsep + os.environ.get("VERIF_REPO", "/repo"), PYTHONHASHSEED="0")
     cmd = [py, os.path.join(harness, "fuzz_c10.py"), corpus, "-runs=%d" % runs, "-seed=%d" % (ctx.seed * 100 + ctx.shard + 1),
-           "-artifact_prefix=" + work + "/", "-max_len=64", "-print_final_stats=1"]
+           "-artifact_prefix=" + work + "/", "-max_len=64", "-print_final_stats=1",
+           # libFuzzer reads getrusage().ru_maxrss, which on Linux survives fork+exec: it would see the
+           # (multi-GB) peak RSS of this long-running driver process and stop with a bogus out-of-memory
+           "-rss_limit_mb=0"]
     try:
         p = subprocess.run(cmd, env=env, stdout=subprocess.PIPE, stderr=subprocess.STDOUT, timeout=1500, cwd=work)
         out = p.stdout.decode("utf-8", "replace")
@@ -140,6 +143,8 @@ def hypothesis_run(ctx):
     ctx.extra["atheris_campaigns_seeded_corpus" if seeded else "atheris_campaigns_empty_corpus"] = 1
     sys.path.insert(0, harness)
     import fuzz_c10
+    for extra in glob.glob(os.path.join(work, "oom-*")) + glob.glob(os.path.join(work, "timeout-*")):
+        ctx.extra["atheris_oom_or_timeout_artifacts"] = ctx.extra.get("atheris_oom_or_timeout_artifacts", 0) + 1
     for crash in sorted(glob.glob(os.path.join(work, "crash-*"))):
         with open(crash, "rb") as f:
             data = f.read()
